@@ -233,17 +233,20 @@ where
         let n_bins = self.n_bins();
         let mut edges: Vec<T> = vec![];
         for i in 0..=n_bins {
-            let edge = self.min.clone() + T::from_usize(i).unwrap() * self.bin_width.clone();
-            edges.push(edge);
+            edges.push(self.edge(i));
         }
         Bins::new(Edges::from(edges))
     }
 
+    /// The `i`-th edge. `build` and `n_bins` must agree on it operation for operation,
+    /// otherwise rounding can leave the last edge at or below the maximum.
+    fn edge(&self, i: usize) -> T {
+        self.min.clone() + T::from_usize(i).unwrap() * self.bin_width.clone()
+    }
+
     fn n_bins(&self) -> usize {
-        let mut max_edge = self.min.clone();
-        let mut n_bins = 0;
-        while max_edge <= self.max {
-            max_edge = max_edge + self.bin_width.clone();
+        let mut n_bins = 1;
+        while self.edge(n_bins) <= self.max {
             n_bins += 1;
         }
         n_bins
